@@ -278,7 +278,7 @@ def run(ctx):
            programs_with_at_most_6_sugar_sites=exh_programs,
            variants_whose_only_difference_is_the_masked_line_number=line_moving,
            exhaustive=(tier == "thorough"),
-           rule="programs: 16 skeletons + the shared prelude (all sites) + SyltGen's pairwise-nesting universe, one harness context per "
+           rule="programs: 19 skeletons + the shared prelude (all sites) + SyltGen's pairwise-nesting universe, one harness context per "
                 "expression (quick: every 64th pair; skeletons exhaustive up to 1024 preference functions); variants per program = SyltSurface/MC_Surface!Variants: all legal choice functions over the "
                 "nested expression's (skeleton: all) sugar sites when <= 6 sites and <= 256 (skeleton: 4096) preference functions, every sugar site "
                 "toggled alone to each option, every layout site toggled alone (programs with <= 40 sites), uniform/strided/mixed patterns of call form, "
@@ -289,8 +289,8 @@ def run(ctx):
            known_findings_hit=verdicts.known_hits)
     ev.assume("masked before comparing: exactly the number N in the text 'Reached unreachable code on line N' (the only source-line number the emitter embeds: "
               "sylt-compiler/src/intermediate.rs, S::Unreachable); variants that keep the line structure are compared byte for byte, unmasked",
-              "sugar is offered for callees that are names or field accesses; `->` only where the callee contains no function literal; function literals and "
-              "std names carry no redundant parentheses; assignment targets are lvalue paths without sites; line breaks are varied inside brackets only",
+              "every callee takes `'` and `->` (a prime after a callee that is not a bare name chain only at the lowest precedence level); `->` is not offered where "
+              "callee and first argument both contain a function literal; every expression may be parenthesised; assignment targets are lvalue paths without sites; line breaks are varied inside brackets only",
               "parser trees are compared after astdump (spans and Parenthesis nodes dropped, arrow calls desugared), with `ret e` as a function's last "
               "statement read as `e` and the blob literal's type-name length field dropped (it encodes span columns)",
               "TLC's -coverage is switched off for MC_Surface (its cost model runs out of memory on the recursive parser); action counts are taken from "
